@@ -4979,6 +4979,10 @@ GRPshutdown(void)
 
         gr_tree = NULL;
     } /* end if */
+
+    /* Allow the interface to be initialized again */
+    library_terminate = FALSE;
+
     return SUCCEED;
 } /* end GRPshutdown() */
 
